@@ -82,7 +82,7 @@ var props = map[string]propCfg{
 	"C13": {Level: "exploration", QuickRuns: 4000, QuickBud: 22 * time.Second, ThorRuns: 200000, ThorBud: 10 * time.Minute,
 		Required: []string{"logout_success", "logout_failure", "now_equals_notonorafter", "now_equals_issueinstant", "sp_reregistered", "sp_deleted", "sp_skew"}},
 	"C15": {Level: "exploration", QuickRuns: 4000, QuickBud: 25 * time.Second, ThorRuns: 200000, ThorBud: 12 * time.Minute, Race: true,
-		Required: []string{"request_overlapped_another", "message_id_checked", "overlap_window"}},
+		Required: []string{"request_overlapped_another", "message_id_checked", "overlap_window", "shadow_compared", "shadow_compared_callback", "shadow_compared_attrq", "shadow_compared_metadata"}},
 	"C08": {Level: "exploration", QuickRuns: 4000, QuickBud: 22 * time.Second, ThorRuns: 200000, ThorBud: 10 * time.Minute,
 		Required: []string{"sso_persisted", "sso_not_persisted", "storage_err", "body_error_at"}},
 }
